@@ -682,7 +682,7 @@ def _r5(chk, repo, kernels):
                 want = (Fraction(-1, 2) / var[0], {a: -b for a, b in var[1].items()})
                 if (c, pw) != want:
                     problems.append(f"log_proposal prefactor {(c, pw)} is not -1/(2*variance) = {want}")
-                if len([r for r in rest if "misfit.T" in r or r.startswith(mis)]) != 2:
+                if len([r for r in rest if "misfit.T" in r or r.startswith(mis) or (r.startswith("(" + mis) and r.endswith(").T"))]) != 2:
                     problems.append(f"log_proposal is not a squared norm of the misfit: {unparse(re_)}")
             chk.add("C02-R5", k.label, not problems, site(repo, lp), f"proposal drift {drift}, variance {var} agree with log_proposal",
                     "; ".join(problems), re_)
